@@ -497,6 +497,9 @@ func checkRegion(rs *pb.RegionSpecifier, o c05Op) error {
 func c05aRun(c c05aCase) Outcome {
 	var o Outcome
 	res := inBubble(theT, func() { o = c05aInBubble(c) })
+	if o, stuck := stuckVerdict(res); stuck {
+		return o
+	}
 	if res.Panic != "" {
 		return viol("panic@"+topFrame(res.Stack), "%s\n%s", res.Panic, res.Stack)
 	}
